@@ -130,9 +130,12 @@ fn gen_cfg(r: &mut Rng) -> (u64, u64, u64) {
 
 pub fn run(seed: u64, cases: u64, replay: Option<&str>, o: &mut Out) {
     if let Some(p) = replay {
+        let mut rr = Rng::new(seed);
         for l in super::replay_lines(p) {
+            if l.starts_with("mon_") { continue; }
             let res = exec_line(&l);
             o.line(&l, &res);
+            emit_monitors(&l, &res, &mut rr, o);
         }
         return;
     }
